@@ -120,7 +120,7 @@ def ref_of(*vals):
     return V(reads=reads, arg=arg)
 
 
-STATIC_PREFIXES = ("<default:", "<module:", "<class:")
+STATIC_PREFIXES = ("<default:", "<module:", "<class:", "<arg:")      # <arg:p> = an object the CALLER passed in
 MUTABLE = (list, dict, set, bytearray)
 
 
@@ -195,7 +195,7 @@ class Analyser:
             return
         if targets:
             for a in sorted(val.aliases):
-                if is_static(a) and not all(is_static(t) for t in targets):
+                if is_static(a) and not a.startswith("<arg:") and not all(is_static(t) for t in targets):
                     # a shared mutable object becomes reachable from the instance: stored by reference
                     self.emit_mut(f"<escape: {a} stored by reference in {join(sorted(targets)[0], attr)}>", val)
             for p in sorted(targets):
@@ -992,7 +992,7 @@ class Frame:
                 return ref_of(*allargs)
             if name in PURE_BUILTINS and name not in self.g:
                 m = pure_of(*allargs)
-                if name in ("list", "tuple", "sorted", "reversed", "iter", "enumerate", "zip", "set") and posargs:
+                if name in ("list", "tuple", "sorted", "reversed", "iter", "enumerate", "zip", "set", "dict") and posargs:
                     src0 = posargs[0]
                     e = self.elem_of(src0) if (src0.elem is not None or src0.aliases) else None
                     return V(reads=m.reads, arg=m.arg, elem=e, static=src0.static if name in ("list", "tuple") else None)
@@ -1140,6 +1140,53 @@ def analyse_callee(fn, owner, dialect_classes):
     finally:
         _AN[0] = None
     return an.blocks[0], an.skipped
+
+
+def analyse_arguments(cls, name, samples, dialect_classes, hint_classes):
+    """program of cls.<name> (constructor, classmethod or method) called with every parameter bound to an object
+    supplied by the CALLER (root <arg:param>): whatever it writes below such a root changes the caller's objects"""
+    rawtypes: dict = {}
+    for s in samples:
+        collect_types(s, rawtypes)
+    types = {p: {c for c in cs if c.__module__.split(".")[0] == PKG} for p, cs in rawtypes.items()}
+    an = Analyser({p: cs for p, cs in types.items() if cs}, dialect_classes, rawtypes)
+    raw = inspect.getattr_static(cls, name)
+    fn = raw.__func__ if isinstance(raw, (staticmethod, classmethod)) else raw
+    if not inspect.isfunction(fn) or an.source_ast(fn) is None:
+        return {"program": [], "out_reads": [], "out_arg": True, "unknown": [], "inlined": [], "assumed_pure": [], "skipped": {}}
+    sig = inspect.signature(fn)
+    pos, kw = [], {}
+    for i, (pn, prm) in enumerate(sig.parameters.items()):
+        if i == 0 and pn == "self":
+            pos.append(V(aliases={""}, classes={cls}))
+            continue
+        if i == 0 and pn == "cls":
+            pos.append(V(is_class=cls))
+            continue
+        ann = str(prm.annotation)
+        classes = set()
+        for key, cs in hint_classes.items():
+            if key in ann:
+                classes |= set(cs)
+        root = f"<arg:{pn}>"
+        if prm.kind == prm.VAR_POSITIONAL:
+            ev = V(aliases={root + "[*]"}, classes=classes or None, reads={root + "[*]"})
+            pos.append(ev)          # one representative element
+            continue
+        if prm.kind == prm.VAR_KEYWORD:
+            continue
+        v = V(aliases={root}, classes=classes or None, reads={root}, arg=True)
+        if prm.kind == prm.KEYWORD_ONLY:
+            kw[pn] = v
+        else:
+            pos.append(v)
+    _AN[0] = an
+    try:
+        an.inline(fn, pos, kw)
+    finally:
+        _AN[0] = None
+    return {"program": an.blocks[0], "out_reads": [], "out_arg": True, "unknown": an.unknown,
+            "inlined": sorted(an.inlined), "assumed_pure": sorted(an.assumed_pure), "skipped": dict(an.skipped)}
 
 
 def analyse(cls, entry: str, samples, dialect_classes):
